@@ -13,8 +13,11 @@ Python -> Lean
   `(NAME, raw value)` in `dir()` order, which is the order in which the metaclass fills
   `_value2name` / `_name2value` (later entries overwrite earlier ones: aliases).
 * values: `Atom` = None / bool / int / float / str are the things both directions pass through
-  unchanged; floats are opaque 64-bit patterns (never computed with; NaN excluded, see `floatEq`).
-  `Val.enum e v` is an instance of enum class `e` whose `.value` is `v`; `Val.obj c vs` an instance of
+  unchanged; floats are opaque 64-bit patterns, never computed with (`floatEq`, used only where
+  `set(lst)` / `map[k] = v` compare elements, identifies +0.0 and -0.0; NaN inside a set is outside
+  the model: identity vs. equality).
+  `Val.enum e v` is an instance of enum class `e` whose `.value` is the int `v` (bound: enums with
+  int raw values; the code only ever uses raw values as dict keys); `Val.obj c vs` an instance of
   Serializable class `c` with the values of its `_fields` in order; `list/set/tuple/dict` the Python
   containers (a set is the list of its elements in *iteration order*, which is what `toJson` emits;
   a dict is its insertion-ordered item list).
@@ -224,11 +227,44 @@ def dictSetV : List (Val × Val) → Val → Val → List (Val × Val)
 
 /-! ### toJson -/
 
+/-- iterating a `str` yields its characters as one-character strings -/
+def strChars (s : Str) : List Atom := s.map (fun c => .str [c])
+
+/-- `_toJsonBasic(T, field, a)` for an atom `a`: atoms have no `toJson` method -/
+def toJsonAtom (tbl : Table) (t : BTy) (a : Atom) : Except Err JsonVal :=
+  match t with
+  | .obj _ => .error .attributeError
+  | .enum e => enumCast tbl e (.atom a)
+  | _ => .ok (.atom a)
+
+/-- `[_toJsonBasic(T, field, a) for a in atoms]` (first failure wins) -/
+def toJsonAtoms (tbl : Table) (t : BTy) : List Atom → Except Err (List JsonVal)
+  | [] => .ok []
+  | a :: as =>
+    match toJsonAtom tbl t a with
+    | .ok j =>
+      match toJsonAtoms tbl t as with
+      | .ok rest => .ok (j :: rest)
+      | .error e => .error e
+    | .error e => .error e
+
+/-- Tuple annotation over a `str` value: `record[i]` is the i-th character; padding as usual -/
+def toJsonAtomsTuple (tbl : Table) : List Atom → List BTy → Except Err (List JsonVal)
+  | _, [] => .ok []
+  | [], _ :: ts' => .ok (.atom .none :: ts'.map (fun _ => .atom .none))
+  | a :: as, t :: ts' =>
+    match toJsonAtom tbl t a with
+    | .ok j =>
+      match toJsonAtomsTuple tbl as ts' with
+      | .ok rest => .ok (j :: rest)
+      | .error e => .error e
+    | .error e => .error e
+
 mutual
 /-- `_toJsonBasic` (annotation `.basic b`) and the per-field dispatch of `Serializable.toJson`
 (generic annotations) on the value `x` held by the field.
 `unmodelled`: a non-atom in an int/float/str/bool position (passed through as a Python object);
-str / dict iterated as the content of a List/Set/Tuple field; set / dict indexed by a Tuple field. -/
+a dict iterated as the content of a List/Set field; a set / dict indexed by a Tuple field. -/
 def toJsonField (tbl : Table) (x : Val) (t : Ty) : Except Err JsonVal :=
   match t with
   | .basic (.obj _) =>                      -- `value.toJson()`
@@ -256,7 +292,8 @@ def toJsonField (tbl : Table) (x : Val) (t : Ty) : Except Err JsonVal :=
     | .set xs => match toJsonElems tbl xs t' with | .ok js => .ok (.arr js) | .error e => .error e
     | .tuple xs => match toJsonElems tbl xs t' with | .ok js => .ok (.arr js) | .error e => .error e
     | .atom .none => .ok (.atom .none)
-    | .atom (.str _) => .error .unmodelled
+    | .atom (.str s) =>                     -- a str is Iterable: its characters
+      match toJsonAtoms tbl t' (strChars s) with | .ok js => .ok (.arr js) | .error e => .error e
     | .dict _ => .error .unmodelled
     | _ => .error .typeError
   | .set t' =>
@@ -265,7 +302,8 @@ def toJsonField (tbl : Table) (x : Val) (t : Ty) : Except Err JsonVal :=
     | .set xs => match toJsonElems tbl xs t' with | .ok js => .ok (.arr js) | .error e => .error e
     | .tuple xs => match toJsonElems tbl xs t' with | .ok js => .ok (.arr js) | .error e => .error e
     | .atom .none => .ok (.atom .none)
-    | .atom (.str _) => .error .unmodelled
+    | .atom (.str s) =>
+      match toJsonAtoms tbl t' (strChars s) with | .ok js => .ok (.arr js) | .error e => .error e
     | .dict _ => .error .unmodelled
     | _ => .error .typeError
   | .dict kt vt =>
@@ -278,7 +316,8 @@ def toJsonField (tbl : Table) (x : Val) (t : Ty) : Except Err JsonVal :=
     | .list xs => match toJsonTuple tbl xs ts with | .ok js => .ok (.arr js) | .error e => .error e
     | .tuple xs => match toJsonTuple tbl xs ts with | .ok js => .ok (.arr js) | .error e => .error e
     | .atom .none => .ok (.atom .none)
-    | .atom (.str _) => .error .unmodelled
+    | .atom (.str s) =>
+      match toJsonAtomsTuple tbl (strChars s) ts with | .ok js => .ok (.arr js) | .error e => .error e
     | .set _ => .error .unmodelled
     | .dict _ => .error .unmodelled
     | _ => .error .typeError
@@ -416,9 +455,6 @@ def atomsConv (tbl : Table) (t : BTy) : List Atom → Except Err (List Val)
       | .ok rest => .ok (v :: rest)
       | .error e => .error e
     | .error e => .error e
-
-/-- iterating a `str` yields its characters as one-character strings -/
-def strChars (s : Str) : List Atom := s.map (fun c => .str [c])
 
 /-- Tuple annotation over a `str` record: `record[i]` is the i-th character; padding as usual -/
 def atomsTuple (tbl : Table) : List Atom → List BTy → Except Err (List Val)
